@@ -1930,7 +1930,7 @@ namespace jsonschema {
             double value = instance.template as<double>();
             if (value != 0) // Exclude zero
             {
-                if (!is_multiple_of(value, static_cast<double>(value_)))
+                if (!is_multiple_of(instance, value, static_cast<double>(value_)))
                 {
                     walk_state result = reporter.error(this->make_validation_message(
                         this_context.eval_path(),
@@ -1945,8 +1945,22 @@ namespace jsonschema {
             return walk_state::advance;
         }
 
-        static bool is_multiple_of(double x, double multiple_of) 
+        static bool is_multiple_of(const Json& instance, double x, double multiple_of) 
         {
+            // an integer instance and an integer divisor: exact integer arithmetic (a double cannot hold every 64 bit integer)
+            if ((instance.is_int64() || instance.is_uint64()) && multiple_of == std::trunc(multiple_of) 
+                && std::fabs(multiple_of) >= 1 && std::fabs(multiple_of) < 9007199254740992.0)
+            {
+                uint64_t m = static_cast<uint64_t>(std::fabs(multiple_of));
+                if (instance.is_uint64())
+                {
+                    return instance.template as<uint64_t>() % m == 0;
+                }
+                int64_t v = instance.template as<int64_t>();
+                uint64_t u = v < 0 ? (~static_cast<uint64_t>(v) + 1) : static_cast<uint64_t>(v);
+                return u % m == 0;
+            }
+
             double rem = std::remainder(x, multiple_of);
             double eps = std::nextafter(x, 0) - x;
             return std::fabs(rem) < std::fabs(eps);
